@@ -1,5 +1,6 @@
 import PEval.Properties.C03Core
 import PEval.Properties.Pipeline
+import PEval.Properties.KernelStatus
 /-!
 # C03 — per-frame TP/FP/FN/TN accounting conserves objects (root of the property)
 
